@@ -314,8 +314,9 @@ def createVA (s : State) (src to : Addr) (amount : List (String × Option Int)) 
   let c := unopt amount
   if s.blocked.contains to.s then .err else
   if (s.accts.get? to.s).isSome then .err else
+  -- `amount.Sort()` sorts the slice in place: the bank transfer below sees the sorted coins
   let s1 := newCva s to.s (sortBy (fun a b => a.1 < b.1) c) startS endS
-  match s1.send src.s to.s c with
+  match s1.send src.s to.s (sortBy (fun a b => a.1 < b.1) c) with
   | .ok s2 => .ok { st := s2 }
   | .err => .err
   | .panic => .panic
